@@ -246,6 +246,27 @@ pub fn search(seed: u64, n: u64) {
             }
         }
     }
+    // ring operands (own stream): A lies in the solid part of B = [outer shape, hole], with B's hole strictly inside A - no boundary of A
+    // meets a boundary of B, so every edge of A is classified the same way in the first pass although A - B is not empty (the hole)
+    let mut rng_ring = Rng(seed ^ 0x21C6C11);
+    for k in 0..(4 + n / 20) {
+        let c = Coord2(rng_ring.r(40.0, 60.0), rng_ring.r(40.0, 60.0));
+        let jit = |rng: &mut Rng, c: Coord2, j: f64| Coord2(c.0 + rng.r(-j, j), c.1 + rng.r(-j, j));
+        let (r_hole, r_a, r_out) = (rng_ring.r(3.0, 7.0), rng_ring.r(12.0, 18.0), rng_ring.r(26.0, 34.0));
+        let shape = |rng: &mut Rng, c: Coord2, r: f64| -> P { match rng.i(3) { 0 => circle(c.0, c.1, r), 1 => circle45(c.0, c.1, r), _ => rect(c.0 - r * 0.8, c.1 - r * 0.8, c.0 + r * 0.8, c.1 + r * 0.8) } };
+        let ca = jit(&mut rng_ring, c, 1.5);
+        let sa = shape(&mut rng_ring, ca, r_a);
+        let a = vec![redirect(&mut rng_ring, &sa)];
+        let ch = jit(&mut rng_ring, c, 1.5);
+        let hole = shape(&mut rng_ring, ch, r_hole);
+        let co = jit(&mut rng_ring, c, 1.5);
+        let outer = shape(&mut rng_ring, co, r_out);
+        let b = if k % 2 == 0 { vec![outer, hole] } else { vec![hole, outer] };
+        stats.count("pair.first_inside_ring_of_second");
+        stats.case(&format!("ring A={:?} B={:?}", a, b), true);
+        check_cut_and_full(&mut stats, &mut rng_ring, &a, &b, "first_inside_ring_of_second", 150, 150);
+        check_cut_and_full(&mut stats, &mut rng_ring, &b, &a, "second_inside_ring_of_first", 150, 150);
+    }
     for _ in 0..n {
         // cut / full_intersect over the C01 pairs
         let pair = gen_pair(&mut rng);
